@@ -123,11 +123,32 @@ def scenario_level():
     return None
 
 
+def get_limits_level():
+    """Job.get_limits against the documented list / dict forms"""
+    from redun.expression import TaskExpression
+    for form, want in [({"db": 2, "x": 1}, {"db": 2, "x": 1}), (["db", "x"], {"db": 1, "x": 1}), ({}, {}), ([], {})]:
+        @task(limits=form, namespace="c08replay", name="gl%d" % (abs(hash(str(form))) % 1000))
+        def t():
+            return 1
+        job = Job(t, t())
+        got = dict(job.get_limits())
+        if got != want:
+            return dict(function="Job.get_limits", limits_option=form, expected=want, observed=got)
+        job2 = Job(t, t.options(limits={"db": 3})())
+        if dict(job2.get_limits()) != {"db": 3}:
+            return dict(function="Job.get_limits", limits_option="call-time {'db': 3}", expected={"db": 3}, observed=dict(job2.get_limits()))
+    return None
+
+
 w = None
-if any(x in obl for x in ("_is_job_within_limits", "_consume_resources/", "_release_resources/")):
+if "get_limits" in obl or not obl:
+    w = get_limits_level()
+if w is None and any(x in obl for x in ("_is_job_within_limits", "_consume_resources/", "_release_resources/")):
     w = unit_level()
 if w is None:
     w = scenario_level()
+if w is None:
+    w = get_limits_level()
 if w is None and not obl:
     w = unit_level()
 finish(w is not None, witness=w)
